@@ -457,8 +457,13 @@ def r5(ctx):
             yield PASS("C12-R5", "from_request_parts/%s-failure-kind" % k, "%s failure => Err(InvalidBodyEncoding)" % k, [])
     # the encoding used is the one named by the charset, else UTF-8
     es = b.slice_op(dec[1]["args"][0])
+    labels = es.find_calls(r"encoding_from_whatwg_label$")
+    bodyp = param_by_name(b, "body")
+    from_body = bodyp in es.locals or any(bodyp in b.slice_op(t_["args"][0]).locals for _, t_ in labels)
     if not (es.has_call(r"encoding_from_whatwg_label$") and es.has_field("charset") and es.has_const_def(r"encoding::all::UTF_8$")):
         yield VIOL("C12-R5", "from_request_parts/encoding-choice", "decoder is not encoding_from_whatwg_label(charset) with UTF-8 fallback", where=b.span_of_block(dec[0]))
+    elif len({bi_ for bi_, _ in labels}) != 1 or from_body:
+        yield VIOL("C12-R5", "from_request_parts/encoding-choice", "the decoder is chosen from more than the Content-Type's charset parameter (%d label look-ups%s): without a charset parameter the body must be read as UTF-8, and an unknown label must be refused, whatever the body says about itself" % (len({bi_ for bi_, _ in labels}), ", one fed from the body" if from_body else ""), where=b.span_of_block(dec[0]))
     else:
         yield PASS("C12-R5", "from_request_parts/encoding-choice", "encoding_from_whatwg_label(content_type.charset) or UTF_8", [])
     # content-type parsing: header `content-type`, option name compared lower-cased with "charset"
